@@ -61,7 +61,8 @@ type Mutation struct {
 func (m *Mutation) Set(s string) (interface{}, error) {
 	return m.B.ReflResolve(m.ID, "set", map[string]interface{}{"s": s})
 }
-func (m *Mutation) A() (interface{}, error) { return m.B.ReflResolve(m.ID, "a", nil) }
+func (m *Mutation) A() (interface{}, error)    { return m.B.ReflResolve(m.ID, "a", nil) }
+func (m *Mutation) Leak() (interface{}, error) { return m.B.ReflResolve(m.ID, "leak", nil) }
 
 type A struct {
 	B  Backend
